@@ -132,8 +132,13 @@ template <class X> void nr_run(Ctx& c, const Str& Rs, const Str& Bs, const char*
         else if (mn.hasAuth != mr.hasAuth) c.violation("C09", fmt("normres/%s/authority-%s", X::tag(), mn.hasAuth ? "added" : "removed"), what + fmt(" normalized=\"%s\"", esc(rnText).c_str()));
         else if (!mr.hasScheme && !mr.hasAuth) {
             Str k0 = path_kind(mr), k1 = path_kind(mn);
-            if ((k0 == "relative" && k1 != "relative") || (k0 == "absolute" && k1 == "relative"))
-                c.violation("C09", fmt("normres/%s/path-kind/%s-to-%s", X::tag(), k0.c_str(), k1.c_str()), what + fmt(" normalized=\"%s\"", esc(rnText).c_str()));
+            if ((k0 == "relative" && k1 != "relative") || (k0 == "absolute" && k1 == "relative")) {
+                // known finding (kept for compatibility with the repository's own tests): a relative path whose segments
+                // cancel out completely becomes empty. Confirmed only if the library's output is exactly the legacy output.
+                Comp legacy = normalize(mr, 63);
+                bool confirmed = k0 == "relative" && k1 == "empty" && legacy.path.empty() && recompose(legacy) == rnText;
+                c.violation("C09", confirmed ? fmt("normres/%s/relative-path-cancels-to-empty", X::tag()) : fmt("normres/%s/path-kind/%s-to-%s", X::tag(), k0.c_str(), k1.c_str()), what + fmt(" normalized=\"%s\"", esc(rnText).c_str()));
+            }
         }
     }
     if (!mb.hasScheme) return;
@@ -148,7 +153,20 @@ template <class X> void nr_run(Ctx& c, const Str& Rs, const Str& Bs, const char*
     Str t1 = text_of<X>(c, T1), t2 = text_of<X>(c, T2);
     int eq; { LibScope ls; eq = X::EqualsUri(&T1.u, &T2.u); }
     c.distinct(hash_str(Rs + "\x01" + Bs));
-    if (t1 != t2) c.violation("C09", fmt("normres/%s/does-not-commute", X::tag()), what + fmt(" via-normalized=\"%s\" direct=\"%s\" normalized-ref=\"%s\" [%s]", esc(t1).c_str(), esc(t2).c_str(), esc(rnText).c_str(), gen));
+    bool cancels = false;
+    if (t1 != t2 && !mr.hasScheme && !mr.hasAuth && !mr.path.empty() && mr.path[0] != '/') {
+        // same root cause as above, confirmed against the models: normalize(R) has an empty path, the library resolved that
+        // (to the base's own path) exactly as the model does, and the direct route is the model's result too
+        Comp rn = normalize(mr, 63), viaN, direct;
+        if (rn.path.empty() && resolve(mb, rn, false, &viaN) && resolve(mb, mr, false, &direct)) {
+            Comp nv = normalize(viaN, 63), nd = normalize(direct, 63);
+            bool okV = false, okD = false;
+            for (const Str& pth : normalize_acceptable_paths(viaN, nv)) { Comp a = nv; a.path = pth; if (recompose(a) == t1) okV = true; }
+            for (const Str& pth : normalize_acceptable_paths(direct, nd)) { Comp a = nd; a.path = pth; if (recompose(a) == t2) okD = true; }
+            cancels = okV && okD;
+        }
+    }
+    if (t1 != t2) c.violation("C09", cancels ? fmt("normres/%s/does-not-commute/relative-path-cancels-to-empty", X::tag()) : fmt("normres/%s/does-not-commute", X::tag()), what + fmt(" via-normalized=\"%s\" direct=\"%s\" normalized-ref=\"%s\" [%s]", esc(t1).c_str(), esc(t2).c_str(), esc(rnText).c_str(), gen));
     else if (!eq) c.violation("C09", fmt("normres/%s/same-text-not-equal", X::tag()), what + fmt(" text=\"%s\"", esc(t1).c_str()));
     else c.count("commutes");
 }
